@@ -7,7 +7,9 @@ failing expression cannot mask the others) and compared with the reference seman
 (written from the Snowflake documentation, Python re / datetime / decimal ROUND_HALF_UP / hashlib only).
 
 Oracle clauses
-  C10.supported   a form in the supported domain is answered, not rejected
+  C10.supported   a form that fakesnow answers today stays answered.  The property accepts a rejection for forms fakesnow
+                  does not support; exactly those are named in the table REJ_OK_TODAY (rej_ok: documented value or any
+                  exception) — every other form of the alphabets must be answered
   C10.value       the value is the documented one
   C10.type        the result type is the documented one (Python type family of the fetched value; for non-NULL values
                   also the type code — and for fixed-point results the scale / documented precision — of description)
@@ -335,6 +337,43 @@ def _exp_repr(exp):
 
 Q, T = "quick", "thorough"
 
+# REJ_OK_TODAY — the complete list of forms that fakesnow does not support today: for these (and only these) a rejection
+# (any exception) is accepted, as the property's last sentence says; a *value* must still be the documented one.
+# Every other form of the alphabets is answered today and has to stay answered (clause C10.supported reports a form
+# that goes from answered to rejected).  Each entry was observed to be rejected on the pinned tree, except
+# TO_TIMESTAMP:int_of_ms_us_ns_magnitude whose smallest member is answered (wrongly: known finding C10.value).
+REJ_OK_TODAY = {
+    "REGEXP_REPLACE:position_occurrence_parameters": "NotImplementedError raised by transforms.regex_replace",
+    "TO_DATE:non_iso_auto_format": "DD-MON-YYYY, MM/DD/YYYY and integer strings are handed to DuckDB's DATE cast as they are",
+    "TO_TIMESTAMP:int_of_ms_us_ns_magnitude": "the magnitude rule for integers >= 31536000000 is not implemented",
+    "TO_TIMESTAMP:date_or_timestamp_expression": "to_timestamp(DATE|TIMESTAMP) / strptime(DATE, …) do not exist in DuckDB",
+    "TO_TIMESTAMP:varchar_column": "only string literals become casts; a column reaches to_timestamp(DOUBLE) (TO_TIMESTAMP_NTZ works)",
+    "TO_TIMESTAMP:int_expression_with_scale": "a negative literal (unary minus) with a scale argument is not recognised as an epoch value",
+    "TO_TIMESTAMP_NTZ:int_expression": "negative literal / integer column end up in strptime(<int>, …)",
+    "TO_DECIMAL:format_argument": "NotImplementedError raised by transforms.to_decimal / try_to_decimal",
+    "CAST:integer_to_timestamp": "DuckDB has no INTEGER -> TIMESTAMP cast",
+    "DATE_PART:nanosecond": "DuckDB intervals and date_diff stop at microseconds",
+    "SHA2:digest_size_other_than_256": "only SHA-256 exists in DuckDB",
+    "NESTED:SHA2(SHA2_HEX)": "a call nested directly inside a call rewritten by the same transform pass is not rewritten",
+    "NESTED:TO_DECIMAL(TO_DECIMAL)": "same",
+    "NESTED:TO_DECIMAL(TO_NUMERIC)": "same",
+    "RANDOM:seed_2^32_and_above": "setseed() refuses the scaled seed",
+    "SAMPLE:ROW": "DuckDB parser does not know the ROW sampling method",
+    "SAMPLE:BLOCK": "DuckDB parser does not know the BLOCK sampling method",
+    "IDENTIFIER:quoted_name": "quotes inside the string are copied into the identifier",
+    "VALUES:columnN_through_table_alias": "values_columns skips VALUES that carry a table alias",
+    "ALIAS_IN_JOIN:alias_on_the_right": "alias_in_join only handles `alias = expr` as the whole ON condition",
+    "ALIAS_IN_JOIN:alias_in_and": "same",
+}
+_CTX_REJ_OK = {("nested", "SHA2_HEX"): "NESTED:SHA2(SHA2_HEX)", ("nested", "TO_DECIMAL"): "NESTED:TO_DECIMAL(TO_DECIMAL)",
+               ("nested", "TO_NUMERIC"): "NESTED:TO_DECIMAL(TO_NUMERIC)"}
+
+
+def rej(form, cond=True):
+    """rej_ok marking of a case: True only for a form listed in REJ_OK_TODAY."""
+    assert form in REJ_OK_TODAY, form
+    return bool(cond)
+
 
 def _t(tier, quick, extra):
     return list(quick) + (list(extra) if tier == T else [])
@@ -461,7 +500,7 @@ def gen_regexp_replace(tier, out, stats):
                 for ex in _t(tier, RR_EXTRA[Q], RR_EXTRA[T]):
                     a2 = args + [str(x) if isinstance(x, int) else q(x) for x in ex]
                     th = lambda s=s, p=p, r=r, ex=ex: sf.regexp_replace(s, p, r, *ex)  # noqa: E731
-                    case(fn, f"REGEXP_REPLACE({', '.join(a2)})", th, "str", f"fn={fn},arity={len(a2)}{feat}", rej_ok=True, out=out, stats=stats)
+                    case(fn, f"REGEXP_REPLACE({', '.join(a2)})", th, "str", f"fn={fn},arity={len(a2)}{feat}", rej_ok=rej("REGEXP_REPLACE:position_occurrence_parameters"), out=out, stats=stats)
     # NULL pattern / NULL replacement, pattern and subject from a column
     for s in ["abcabc"]:
         case(fn, f"REGEXP_REPLACE({q(s)}, NULL, 'X')", lambda: None, "str", f"fn={fn},pattern=NULL", out=out, stats=stats)
@@ -550,7 +589,9 @@ def gen_to_date(tier, out, stats):
         case(name, f"{name}(TO_TIMESTAMP(86399))", lambda: D(1970, 1, 1), "date", f"fn={name},arg=timestamp", out=out, stats=stats)
         case(name, _col(f"{name}(c)", q("2024-02-29")), lambda: D(2024, 2, 29), "date", f"fn={name},arg=string_column", out=out, stats=stats)
     for sql, v in _t(tier, TD_REJ_OK[Q], TD_REJ_OK[T]):
-        case("TO_DATE", sql, lambda v=v: v, "date", "fn=TO_DATE,arg=other_format" + (",format=given" if sql.count(",") else ""), rej_ok=True, out=out, stats=stats)
+        fmt = sql.count(",") > 0  # an explicit format is answered today (strptime) and must stay answered
+        case("TO_DATE", sql, lambda v=v: v, "date", "fn=TO_DATE,format=given" if fmt else "fn=TO_DATE,arg=other_auto_format",
+             rej_ok=rej("TO_DATE:non_iso_auto_format", not fmt), out=out, stats=stats)
 
 
 # ---- TO_TIMESTAMP / TO_TIMESTAMP_NTZ --------------------------------------------------------------------------------
@@ -588,17 +629,23 @@ def gen_to_timestamp(tier, out, stats):
             # a negative literal is an expression (unary minus), not a literal: fakesnow treats the two differently
             cls = f"fn={name},arg=int_expression" if n < 0 else f"fn=TO_TIMESTAMP[_NTZ],{shape}"
             case(name, f"{name}({n})", lambda n=n: sf.to_timestamp(n), "ts", cls,
-                 rej_ok=("unit=seconds" not in shape), ctx=(n == 1700000000), out=out, stats=stats)
+                 rej_ok=rej("TO_TIMESTAMP:int_of_ms_us_ns_magnitude", "unit=seconds" not in shape) or (n < 0 and rej("TO_TIMESTAMP_NTZ:int_expression", name == "TO_TIMESTAMP_NTZ")),
+                 ctx=(n == 1700000000), out=out, stats=stats)
         for n, sc in _t(tier, TT_SCALED[Q], TT_SCALED[T]):
             case(name, f"{name}({n}, {sc})", lambda n=n, sc=sc: sf.to_timestamp(n, sc), "ts",
-                 "fn=TO_TIMESTAMP[_NTZ],arg=int_expression,scale=given" if n < 0 else f"fn=TO_TIMESTAMP[_NTZ],arg=int,scale={sc}", out=out, stats=stats)
+                 "fn=TO_TIMESTAMP[_NTZ],arg=int_expression,scale=given" if n < 0 else f"fn=TO_TIMESTAMP[_NTZ],arg=int,scale={sc}",
+                 rej_ok=rej("TO_TIMESTAMP:int_expression_with_scale", n < 0), out=out, stats=stats)
         case(name, f"{name}(NULL)", lambda: None, "ts", f"fn={name},arg=NULL", out=out, stats=stats)
-        case(name, f"{name}('2024-02-29'::DATE)", lambda: TS(2024, 2, 29), "ts", "fn=TO_TIMESTAMP[_NTZ],arg=date_or_timestamp_expression", out=out, stats=stats)
-        case(name, f"{name}('2024-02-29 01:02:03'::TIMESTAMP_NTZ)", lambda: TS(2024, 2, 29, 1, 2, 3), "ts", "fn=TO_TIMESTAMP[_NTZ],arg=date_or_timestamp_expression", out=out, stats=stats)
-        case(name, _col(f"{name}(c)", q("2024-02-29 12:13:14")), lambda: TS(2024, 2, 29, 12, 13, 14), "ts", f"fn={name},arg=string_column", out=out, stats=stats)
-        case(name, _col(f"{name}(c)", "1700000000"), lambda: sf.to_timestamp(1700000000), "ts", f"fn={name},arg=int_expression", out=out, stats=stats)
+        case(name, f"{name}('2024-02-29'::DATE)", lambda: TS(2024, 2, 29), "ts", "fn=TO_TIMESTAMP[_NTZ],arg=date_or_timestamp_expression",
+             rej_ok=rej("TO_TIMESTAMP:date_or_timestamp_expression"), out=out, stats=stats)
+        case(name, f"{name}('2024-02-29 01:02:03'::TIMESTAMP_NTZ)", lambda: TS(2024, 2, 29, 1, 2, 3), "ts", "fn=TO_TIMESTAMP[_NTZ],arg=date_or_timestamp_expression",
+             rej_ok=rej("TO_TIMESTAMP:date_or_timestamp_expression"), out=out, stats=stats)
+        case(name, _col(f"{name}(c)", q("2024-02-29 12:13:14")), lambda: TS(2024, 2, 29, 12, 13, 14), "ts", f"fn={name},arg=string_column",
+             rej_ok=rej("TO_TIMESTAMP:varchar_column", name == "TO_TIMESTAMP"), out=out, stats=stats)
+        case(name, _col(f"{name}(c)", "1700000000"), lambda: sf.to_timestamp(1700000000), "ts", f"fn={name},arg=int_expression",
+             rej_ok=rej("TO_TIMESTAMP_NTZ:int_expression", name == "TO_TIMESTAMP_NTZ"), out=out, stats=stats)
         case(name, f"{name}('29/02/2024 12:13:14', 'DD/MM/YYYY HH24:MI:SS')", lambda: TS(2024, 2, 29, 12, 13, 14), "ts",
-             f"fn={name},format=given", rej_ok=True, out=out, stats=stats)
+             f"fn={name},format=given", out=out, stats=stats)
 
 
 # ---- TO_DECIMAL / TO_NUMBER / TO_NUMERIC and TRY_ forms -------------------------------------------------------------
@@ -665,7 +712,7 @@ def gen_to_decimal(tier, out, stats):
                 case(name, f"{name}(NULL{a})", lambda: None, "num", f"fn={tr}TO_DECIMAL,src=NULL", meta=meta, out=out, stats=stats)
             # format argument: NotImplementedError in fakesnow -> right value or rejected
             case(name, f"{name}('12.345', '99.999', 10, 2)", lambda: Decimal("12.35"), "num", f"fn={tr}TO_DECIMAL,format=given",
-                 meta={"precision": 10, "scale": 2}, rej_ok=True, out=out, stats=stats)
+                 meta={"precision": 10, "scale": 2}, rej_ok=rej("TO_DECIMAL:format_argument"), out=out, stats=stats)
             # from a column, from a FLOAT away from midpoints
             c = case(name, _col(f"{name}(c, 10, 1)", q("12.35")), lambda ref=ref: ref("12.35", 10, 1), "num", f"fn={tr}TO_DECIMAL,src=string_column",
                      meta={"precision": 10, "scale": 1}, out=out, stats=stats)
@@ -728,7 +775,7 @@ def gen_casts(tier, out, stats):
         case("CAST_TIMESTAMP", f"'2020-01-01'::DATE::{tgt}", lambda: TS(2020, 1, 1), "ts", "fn=CAST,target=timestamp_ntz,src=date", out=out, stats=stats)
         case("CAST_TIMESTAMP", f"NULL::{tgt}", lambda: None, "ts", "fn=CAST,target=timestamp_ntz,src=NULL", out=out, stats=stats)
         # integer -> timestamp (seconds since the epoch): DuckDB has no such cast -> right value or rejected
-        case("CAST_TIMESTAMP", f"1700000000::{tgt}", lambda: sf.to_timestamp(1700000000), "ts", "fn=CAST,target=timestamp_ntz,src=integer", rej_ok=True, out=out, stats=stats)
+        case("CAST_TIMESTAMP", f"1700000000::{tgt}", lambda: sf.to_timestamp(1700000000), "ts", "fn=CAST,target=timestamp_ntz,src=integer", rej_ok=rej("CAST:integer_to_timestamp"), out=out, stats=stats)
 
 
 # ---- DATEADD --------------------------------------------------------------------------------------------------------
@@ -767,24 +814,24 @@ def gen_dateadd(tier, out, stats):
     parts = _t(tier, PARTS, PART_ALIASES)
     amounts = _t(tier, DA_AMOUNTS[Q], DA_AMOUNTS[T])
     for p in parts:
-        rej = _part_name(p) == "nanosecond"  # DuckDB intervals stop at microseconds: rejection accepted
+        rj = rej("DATE_PART:nanosecond", _part_name(p) == "nanosecond")
         for n in amounts:
-            nn = n * 1000 if rej else n
+            nn = n * 1000 if rj else n
             for d in _t(tier, DA_DATES[Q], DA_DATES[T]):
                 v = D.fromisoformat(d)
                 kind = "date" if _part_name(p) in sf.DAY_OR_LARGER else "ts"
                 case("DATEADD", f"DATEADD({p}, {nn}, {q(d)}::DATE)", lambda p=p, nn=nn, v=v: sf.dateadd(p.strip("'"), nn, v), kind,
-                     _da_cls(p, "date", nn, v), rej_ok=rej, ctx=(n == 1 and d == "2024-02-29" and p in ("month", "hour")), out=out, stats=stats)
+                     _da_cls(p, "date", nn, v), rej_ok=rj, ctx=(n == 1 and d == "2024-02-29" and p in ("month", "hour")), out=out, stats=stats)
             for t in _t(tier, DA_TIMESTAMPS[Q], DA_TIMESTAMPS[T]):
                 v = TS.fromisoformat(t)
                 case("DATEADD", f"DATEADD({p}, {nn}, {q(t)}::TIMESTAMP_NTZ)", lambda p=p, nn=nn, v=v: sf.dateadd(p.strip("'"), nn, v), "ts",
-                     _da_cls(p, "timestamp", nn, v), rej_ok=rej, ctx=(n == 1 and t == "2024-02-29 12:30:45" and p == "month"), out=out, stats=stats)
+                     _da_cls(p, "timestamp", nn, v), rej_ok=rj, ctx=(n == 1 and t == "2024-02-29 12:30:45" and p == "month"), out=out, stats=stats)
             for s in _t(tier, DA_STRINGS[Q], DA_STRINGS[T]):
                 v = sf.to_timestamp(s)
                 dateonly = len(s) == 10
                 kind = "date_or_ts" if dateonly and _part_name(p) in sf.DAY_OR_LARGER else "ts"
                 case("DATEADD", f"DATEADD({p}, {nn}, {q(s)})", lambda p=p, nn=nn, v=v: sf.dateadd(p.strip("'"), nn, v), kind,
-                     _da_cls(p, "timestamp", nn, v), rej_ok=rej, out=out, stats=stats)
+                     _da_cls(p, "timestamp", nn, v), rej_ok=rj, out=out, stats=stats)
     for p in DA_ALT_PARTS:
         kind = "date" if p in sf.DAY_OR_LARGER else "ts"
         for n in DA_ALT_AMOUNTS:
@@ -848,7 +895,7 @@ def _dd_cls(p, args, a, b):
 
 def gen_datediff(tier, out, stats):
     for p in _t(tier, PARTS, PART_ALIASES):
-        rej = _part_name(p) == "nanosecond"
+        rj = rej("DATE_PART:nanosecond", _part_name(p) == "nanosecond")
         pairs = []
         for a, b in _t(tier, DD_DATE_PAIRS[Q], DD_DATE_PAIRS[T]):
             pairs.append(("date", f"{q(a)}::DATE", D.fromisoformat(a), f"{q(b)}::DATE", D.fromisoformat(b)))
@@ -862,7 +909,7 @@ def gen_datediff(tier, out, stats):
         for args, sa, va, sb, vb in pairs:
             for (s1, v1, s2, v2) in ((sa, va, sb, vb), (sb, vb, sa, va)):
                 case("DATEDIFF", f"DATEDIFF({p}, {s1}, {s2})", lambda p=p, v1=v1, v2=v2: sf.datediff(p.strip("'"), v1, v2), "num",
-                     _dd_cls(p, args, v1, v2), meta={"scale": 0}, rej_ok=rej,
+                     _dd_cls(p, args, v1, v2), meta={"scale": 0}, rej_ok=rj,
                      ctx=(p in ("month", "hour") and s1.startswith("'2023-12-31'::DATE")), out=out, stats=stats)
     case("DATEDIFF", "DATEDIFF(day, NULL, '2024-01-01'::DATE)", lambda: None, "num", "fn=DATEDIFF,arg=NULL", out=out, stats=stats)
     case("DATEDIFF", "DATEDIFF(day, '2024-01-01'::DATE, NULL::DATE)", lambda: None, "num", "fn=DATEDIFF,arg=NULL", out=out, stats=stats)
@@ -883,7 +930,7 @@ def gen_sha2(tier, out, stats):
                 sql = f"{name}({q(m)})" if b is None else f"{name}({q(m)}, {b})"
                 cls = f"fn={name},digest_size={'omitted' if b is None else b}" + (",msg=NULL" if m is None else "")
                 # only SHA-256 exists in DuckDB; other documented sizes: right digest or rejected
-                case(name, sql, lambda m=m, b=b, ref=ref: ref(m, b or 256), kind, cls, rej_ok=(b not in (None, 256)), ctx=(m == "abc" and b is None), out=out, stats=stats)
+                case(name, sql, lambda m=m, b=b, ref=ref: ref(m, b or 256), kind, cls, rej_ok=rej("SHA2:digest_size_other_than_256", b not in (None, 256)), ctx=(m == "abc" and b is None), out=out, stats=stats)
         case(name, _col(f"{name}(c)", q("abc")), lambda ref=ref: ref("abc"), kind, f"fn={name},msg=column", out=out, stats=stats)
         case(name, f"{name}('abc', 100)", lambda ref=ref: ref("abc", 100), kind, f"fn={name},digest_size=invalid", out=out, stats=stats)
 
@@ -1038,7 +1085,7 @@ def context_verdict(c, base_obs, ctxname, o, exp):
     not reported a second time."""
     base_bad = bool(verdicts(c, base_obs))
     if o[0] == "rej":
-        ok = c["rej_ok"]
+        ok = c["rej_ok"] or (ctxname, c["fn"]) in _CTX_REJ_OK
     else:
         ok = value_ok(exp, o[1])
         if ok and ctxname in ("cte", "view", "nested"):
@@ -1081,7 +1128,7 @@ def work_contexts(item, acc: core.Acc, tier):
         acc.obs((c["sql"], cx, obs_repr(o)))
         acc.outcome(("ctx", cx, c["fn"], o[0]))
         acc.nontrivial((cx, c["sql"]))
-        cls = f"ctx={cx}," + c["cls"].split(",")[0]
+        cls = f"ctx={cx},fn={c['fn']}"
         bad = context_verdict(c, base, cx, o, exp)
         acc.member("C10.context", cls, bad)
         if bad:
@@ -1150,9 +1197,9 @@ SAMPLE_FORMS = {
         ("alias_WHERE", "SELECT x.id, x.v FROM c10_t AS x SAMPLE ({p}) SEED ({s}) WHERE x.id > 0", False)],
     T: [("TABLESAMPLE_SEED", "SELECT id, v FROM c10_t TABLESAMPLE ({p}) SEED ({s})", False),
         ("SAMPLE_REPEATABLE", "SELECT id, v FROM c10_t SAMPLE ({p}) REPEATABLE ({s})", False),
-        ("SAMPLE_ROW_SEED", "SELECT id, v FROM c10_t SAMPLE ROW ({p}) SEED ({s})", True),
-        ("SAMPLE_SYSTEM_SEED", "SELECT id, v FROM c10_t SAMPLE SYSTEM ({p}) SEED ({s})", True),
-        ("SAMPLE_BLOCK_SEED", "SELECT id, v FROM c10_t SAMPLE BLOCK ({p}) SEED ({s})", True)],
+        ("SAMPLE_ROW_SEED", "SELECT id, v FROM c10_t SAMPLE ROW ({p}) SEED ({s})", rej("SAMPLE:ROW")),
+        ("SAMPLE_SYSTEM_SEED", "SELECT id, v FROM c10_t SAMPLE SYSTEM ({p}) SEED ({s})", False),
+        ("SAMPLE_BLOCK_SEED", "SELECT id, v FROM c10_t SAMPLE BLOCK ({p}) SEED ({s})", rej("SAMPLE:BLOCK"))],
 }
 SAMPLE_P = {Q: [0, 50, 100], T: [10, 99.5]}
 SAMPLE_SEEDS = {Q: [1, 420], T: [2]}
@@ -1186,7 +1233,8 @@ def stmt_cases(tier):
     seeds = _t(tier, RANDOM_SEEDS[Q], RANDOM_SEEDS[T])
     for s in seeds:
         sh = _seed_shape(s)
-        add({"fn": "RANDOM", "check": "random", "cls": f"fn=RANDOM,form=single,seed={sh}", "sql": f"SELECT RANDOM({s})", "n": 1})
+        add({"fn": "RANDOM", "check": "random", "cls": f"fn=RANDOM,form=single,seed={sh}", "sql": f"SELECT RANDOM({s})", "n": 1,
+             "rej_ok": rej("RANDOM:seed_2^32_and_above", sh == "2^32_and_above")})
         if sh != "below_2^31":
             continue  # the other forms are taken with the ordinary seeds only
         add({"fn": "RANDOM", "check": "random", "cls": "fn=RANDOM,form=twice_in_one_select", "sql": f"SELECT RANDOM({s}), RANDOM({s})", "n": 1, "same_in_row": True})
@@ -1200,11 +1248,11 @@ def stmt_cases(tier):
             if a < b:
                 add({"fn": "RANDOM", "check": "random_pair", "cls": "fn=RANDOM,form=two_seeds,seed=below_2^31", "sql": f"SELECT RANDOM({a})", "sql2": f"SELECT RANDOM({b})"})
     # ---- SAMPLE … SEED -----------------------------------------------------------------------------------------------
-    for form, tpl, rej in _t(tier, SAMPLE_FORMS[Q], SAMPLE_FORMS[T]):
+    for form, tpl, rjk in _t(tier, SAMPLE_FORMS[Q], SAMPLE_FORMS[T]):
         for pct in _t(tier, SAMPLE_P[Q], SAMPLE_P[T]):
             for s in _t(tier, SAMPLE_SEEDS[Q], SAMPLE_SEEDS[T]):
                 add({"fn": "SAMPLE", "check": "sample", "cls": f"fn=SAMPLE,form={form},p={'0' if pct == 0 else '100' if pct == 100 else 'between'}",
-                     "sql": tpl.format(p=pct, s=s), "p": pct, "rej_ok": rej})
+                     "sql": tpl.format(p=pct, s=s), "p": pct, "rej_ok": rjk})
     for n in _t(tier, SAMPLE_ROWS[Q], SAMPLE_ROWS[T]):
         add({"fn": "SAMPLE", "check": "sample", "cls": "fn=SAMPLE,form=SAMPLE_n_ROWS", "sql": f"SELECT id, v FROM c10_t SAMPLE ({n} ROWS)", "rows": n, "rej_ok": False, "repeat": False})
     # ---- IDENTIFIER() ------------------------------------------------------------------------------------------------
@@ -1223,11 +1271,11 @@ def stmt_cases(tier):
             ("qualified_column", "SELECT IDENTIFIER('c10_t.id') FROM c10_t WHERE id <= 2 ORDER BY 1", two, False),
             ("table_alias", "SELECT x.id FROM IDENTIFIER('c10_t') AS x WHERE x.id <= 2 ORDER BY 1", two, False),
             # quoted names inside the string: fakesnow makes no attempt -> right rows or rejected
-            ("quoted_name", "SELECT id FROM IDENTIFIER('\"C10_T\"') WHERE id <= 2 ORDER BY 1", two, True),
-            ("quoted_column", "SELECT IDENTIFIER('\"ID\"') FROM c10_t WHERE id <= 2 ORDER BY 1", two, True),
+            ("quoted_name", "SELECT id FROM IDENTIFIER('\"C10_T\"') WHERE id <= 2 ORDER BY 1", two, rej("IDENTIFIER:quoted_name")),
+            ("quoted_column", "SELECT IDENTIFIER('\"ID\"') FROM c10_t WHERE id <= 2 ORDER BY 1", two, rej("IDENTIFIER:quoted_name")),
         ]
-    for form, sql, rows, rej in ident:
-        add({"fn": "IDENTIFIER", "check": "rows", "cls": f"fn=IDENTIFIER,form={form}", "sql": sql, "rows": rows, "ordered": True, "rej_ok": rej})
+    for form, sql, rows, rjk in ident:
+        add({"fn": "IDENTIFIER", "check": "rows", "cls": f"fn=IDENTIFIER,form={form}", "sql": sql, "rows": rows, "ordered": True, "rej_ok": rjk})
     add({"fn": "IDENTIFIER", "check": "script", "cls": "fn=IDENTIFIER,form=dml",
          "setup": ["CREATE OR REPLACE TABLE c10_d (id INT, v VARCHAR)", "INSERT INTO c10_d VALUES (1,'a'),(2,'b'),(3,'c')",
                    "INSERT INTO IDENTIFIER('c10_d') VALUES (9,'n')", "UPDATE IDENTIFIER('c10_d') SET v = 'z' WHERE IDENTIFIER('id') = 1",
@@ -1249,18 +1297,18 @@ def stmt_cases(tier):
         ("table_alias_star", "SELECT * FROM (VALUES (1,'a'),(2,'b')) AS v", ab, ["COLUMN1", "COLUMN2"], False),
         ("table_alias_column_list", "SELECT * FROM (VALUES (1,'a'),(2,'b')) AS v (x, y)", ab, ["X", "Y"], False),
         # column1 through a table alias: the transform skips aliased VALUES -> right rows or rejected
-        ("table_alias_columnN", "SELECT column2 FROM (VALUES (1,'a'),(2,'b')) AS v", [("a",), ("b",)], ["COLUMN2"], True),
-        ("table_alias_qualified_columnN", "SELECT v.column1 FROM (VALUES (1,'a'),(2,'b')) AS v", [(1,), (2,)], ["COLUMN1"], True),
+        ("table_alias_columnN", "SELECT column2 FROM (VALUES (1,'a'),(2,'b')) AS v", [("a",), ("b",)], ["COLUMN2"], rej("VALUES:columnN_through_table_alias")),
+        ("table_alias_qualified_columnN", "SELECT v.column1 FROM (VALUES (1,'a'),(2,'b')) AS v", [(1,), (2,)], ["COLUMN1"], rej("VALUES:columnN_through_table_alias")),
     ]
     if tier == T:
         vals += [
             ("single_row", "SELECT column1 FROM VALUES (7)", [(7,)], ["COLUMN1"], False),
             ("aggregate", "SELECT SUM(column1) FROM VALUES (1),(2),(3)", [(6,)], None, False),
-            ("join_two_values", "SELECT a.column1, b.column1 FROM (VALUES (1),(2)) a JOIN (VALUES (2),(3)) b ON a.column1 = b.column1", [(2, 2)], ["COLUMN1", "COLUMN1"], True),
+            ("join_two_values", "SELECT a.column1, b.column1 FROM (VALUES (1),(2)) a JOIN (VALUES (2),(3)) b ON a.column1 = b.column1", [(2, 2)], ["COLUMN1", "COLUMN1"], rej("VALUES:columnN_through_table_alias")),
             ("union", "SELECT column1 FROM VALUES (1) UNION ALL SELECT column1 FROM VALUES (2)", [(1,), (2,)], ["COLUMN1"], False),
         ]
-    for form, sql, rows, names, rej in vals:
-        add({"fn": "VALUES", "check": "rows", "cls": f"fn=VALUES,form={form}", "sql": sql, "rows": rows, "ordered": "ORDER BY" in sql, "names": names, "rej_ok": rej})
+    for form, sql, rows, names, rjk in vals:
+        add({"fn": "VALUES", "check": "rows", "cls": f"fn=VALUES,form={form}", "sql": sql, "rows": rows, "ordered": "ORDER BY" in sql, "names": names, "rej_ok": rjk})
     add({"fn": "VALUES", "check": "script", "cls": "fn=VALUES,form=insert_select",
          "setup": ["CREATE OR REPLACE TABLE c10_d (id INT, v VARCHAR)", "INSERT INTO c10_d SELECT column1, column2 FROM VALUES (1,'a'),(2,'b') WHERE column1 > 1"],
          "sql": "SELECT id, v FROM c10_d", "rows": [(2, "b")], "ordered": False, "rej_ok": False, "cleanup": ["DROP TABLE IF EXISTS c10_d"]})
@@ -1289,7 +1337,7 @@ def stmt_cases(tier):
         ]
     for form, sql, rows, ordered, jc, uj in aa:
         add({"fn": "ARRAY_AGG", "check": "rows", "cls": f"fn=ARRAY_AGG,form={form}", "sql": sql, "rows": rows, "ordered": True, "json_cols": jc, "unordered_json": uj, "rej_ok": False})
-    # ---- alias reuse in JOIN … ON (the transform handles `alias = expr` only: every form right rows or rejected) --------
+    # ---- alias reuse in JOIN … ON (the transform handles `alias = expr` only; the two other forms: right rows or rejected)
     aj = [
         ("left_join_alias_eq", "SELECT l.col, SUBSTR(l.col, 4) AS al, r.other FROM c10_l l LEFT JOIN c10_r r ON al = r.rcol ORDER BY 1", _LJ),
         ("inner_join_alias_eq", "SELECT l.col, SUBSTR(l.col, 4) AS al, r.other FROM c10_l l JOIN c10_r r ON al = r.rcol ORDER BY 1", _IJ),
@@ -1299,7 +1347,8 @@ def stmt_cases(tier):
         ("alias_also_in_where", "SELECT l.col, SUBSTR(l.col, 4) AS al, r.other FROM c10_l l JOIN c10_r r ON al = r.rcol WHERE al <> 'zzz' ORDER BY 1", _IJ),
     ]
     for form, sql, rows in aj:
-        add({"fn": "ALIAS_IN_JOIN", "check": "rows", "cls": f"fn=ALIAS_IN_JOIN,form={form}", "sql": sql, "rows": rows, "ordered": True, "rej_ok": True})
+        add({"fn": "ALIAS_IN_JOIN", "check": "rows", "cls": f"fn=ALIAS_IN_JOIN,form={form}", "sql": sql, "rows": rows, "ordered": True,
+             "rej_ok": f"ALIAS_IN_JOIN:{form}" in REJ_OK_TODAY})
     return cs
 
 
@@ -1335,7 +1384,7 @@ def check_stmt(cur, c):
         # guarantee, with or without a seed) and the values themselves.
         r1 = run_sql(cur, c["sql"], want_desc=False)
         if r1[0] == "rej":
-            return True, {"problem": "rejected", "exception": r1[2]}, ("rej", r1[2])
+            return (not c.get("rej_ok", False)), {"problem": "rejected", "exception": r1[2]}, ("rej", r1[2])
         cells = [x for row in r1[1] for x in row]
         if len(r1[1]) != c["n"] or not all(type(x) is int and INT64[0] <= x <= INT64[1] for x in cells):
             return True, {"problem": "not n rows of 64-bit integers", "observed": norm(r1[1])}, ("ok", "shape")
